@@ -9,8 +9,8 @@ import (
 	"sync/atomic"
 	"time"
 
-	"github.com/formancehq/ledger/internal/verifhook"
 	vc "github.com/formancehq/ledger/internal/verif/vcommon"
+	"github.com/formancehq/ledger/internal/verifhook"
 )
 
 // ------------------------------------------------------------------------------------------------
@@ -85,7 +85,7 @@ type Scheduler struct {
 	Stalled  string
 	WorkerW  int // weight of the worker among parked tasks (clients weigh 4)
 	// Hold: while any task is parked at one of these points, prefer others (targeted delay); released when nothing else can run
-	Hold        map[string]bool
+	Hold    map[string]bool
 	GenDead *atomic.Bool // set when the generation's runner has died (store failure)
 }
 
